@@ -68,6 +68,8 @@ DefOpts ==
     dnf    |-> "default", \* type-level named_field
     repr   |-> "none",
     targets |-> <<>>,     \* requested Into targets
+    gen    |-> "none",    \* generics descriptor (EduceBounds)
+    bounds |-> ("-" :> "auto"),   \* trait -> bound mode ("auto" when absent); a function with a set-of-strings domain
     newfn  |-> FALSE,
     dexpr  |-> FALSE
   ]
